@@ -1109,3 +1109,347 @@ def plan_c16(tier, seed):
 
 
 PLANS.update({"C11": plan_c11, "C16": plan_c16})
+
+
+# ------------------------------------------------------------------------------------------------
+# C09: accepted => sound, for declarations the rules call invalid
+def inbase_positions(L, f, idx):
+    """well-formed declared positions of element idx that lie inside the base"""
+    out = []
+    for (lo, n) in f.ranges:
+        for k in range(max(n, 0)):
+            p = lo + idx * f.stride + k
+            if p < L.base:
+                out.append(p)
+    return out
+
+
+def allones_expr(ft, g):
+    if ft.kind == "bool":
+        return f"({g} == true)"
+    if ft.kind == "int":
+        return f"({g} == -1)"
+    if ft.kind == "uint":
+        return f"({H.uint_u128(ft.width, g)} == {mask(ft.width):#x}u128)"
+    return "true"
+
+
+def h_sound(L, f, role):
+    """soundness spec S1..S5 for one field of an accepted declaration"""
+    hs = []
+    S = L.name
+    # S1: total
+    t = H.h_total(L, f, "C09")
+    t.name, t.family, t.role = f"s1_total_{f.name}", "sound_total", role
+    hs.append(t)
+    # S2: the getter can show every value of its type (all-ones reachable)
+    if f.readable and f.ty.kind in ("bool", "uint", "int"):
+        b = H.raw_sym(L)
+        b.append(f"let x = {S}::new_with_raw_value(r);")
+        il, i, sh = H.idx_lines(f)
+        b += il
+        b.append(f"let g = {H.call_get(f, 'x', i)};")
+        b.append(f'vcover!({allones_expr(f.ty, "g")}, "VERIF-REACH-allones");')
+        b.append("vend!();")
+        hs.append(Harness(f"s2_range_{f.name}", "\n".join(b), "reach", "sound_getter_range", "C09", f.name, (), reach=("VERIF-REACH-allones",), role=role))
+    if f.writable:
+        # S3 + S4a + S5
+        b = H.raw_sym(L)
+        b.append(f"let x = {S}::new_with_raw_value(r);")
+        il, i, sh = H.idx_lines(f)
+        b += il
+        b += H.val_sym(f.ty, "v1")
+        b += H.val_sym(f.ty, "v2")
+        b.append(f"let y1 = {H.call_with(f, 'x', i, 'v1')};")
+        b.append(f"let y2 = {H.call_with(f, 'x', i, 'v2')};")
+        if f.readable:
+            b.append(f"let g = {H.call_get(f, 'y1', i)};")
+            b += H.getter_eq_value(f.ty, "g", "v1", f"VERIF with_{f.name}(v) then {f.name}() is not v (truncation)")
+        b.append(f'if {H.raw_of(L, "y1")} == {H.raw_of(L, "y2")} {{ assert!({H.val_bits(f.ty, "v1")} == {H.val_bits(f.ty, "v2")}, "VERIF two different values are stored identically (truncation / aliasing)"); }}')
+        # S4a: nothing outside the element's well-formed in-base positions changes
+        if f.array:
+            K = f.K
+            arms = " ".join(f"{k} => {sum(1 << p for p in inbase_positions(L, f, k)):#x}u128," for k in range(K - 1)) + f" _ => {sum(1 << p for p in inbase_positions(L, f, K - 1)):#x}u128,"
+            b.append(f"let m: u128 = match i {{ {arms} }};")
+        else:
+            b.append(f"let m: u128 = {sum(1 << p for p in inbase_positions(L, f, 0)):#x}u128;")
+        b.append(f'assert!((({H.raw_of(L, "y1")}) ^ r128) & !m == 0, "VERIF a write changed a bit outside the declared positions of the field (aliasing)");')
+        if not L.native:
+            b.append(f"let z = {S}::new_with_raw_value(y1.raw_value());")
+            b += H.val_sym(f.ty, "v3")
+            b.append(f'assert!({H.raw_of(L, H.call_with(f, "y1", i, "v3"))} == {H.raw_of(L, H.call_with(f, "z", i, "v3"))}, "VERIF hidden state above the declared base width");')
+            if f.readable:
+                b.append(f'assert!({H.val_bits(f.ty, H.call_get(f, "y1", i))} == {H.val_bits(f.ty, H.call_get(f, "z", i))}, "VERIF getter sees state that raw_value() does not show");')
+        b.append("vend!();")
+        hs.append(Harness(f"s3_write_{f.name}", "\n".join(b), "pass", "sound_write", "C09", f.name, (), role=role))
+        # S4b: every declared in-base position is driven by the value
+        pos = inbase_positions(L, f, 0)
+        if pos and len(pos) <= 128:
+            b = H.raw_sym(L)
+            b.append(f"let x = {S}::new_with_raw_value(r);")
+            b += H.val_sym(f.ty, "v1")
+            b += H.val_sym(f.ty, "v2")
+            i0 = "0" if f.array else ""
+            b.append(f"let d: u128 = {H.raw_of(L, H.call_with(f, 'x', i0, 'v1'))} ^ {H.raw_of(L, H.call_with(f, 'x', i0, 'v2'))};")
+            labels = []
+            for p in pos:
+                lab = f"VERIF-REACH-driven-bit{p}"
+                b.append(f'vcover!((d >> {p}) & 1 == 1, "{lab}");')
+                labels.append(lab)
+            b.append("vend!();")
+            hs.append(Harness(f"s4_driven_{f.name}", "\n".join(b), "reach", "sound_positions_driven", "C09", f.name, (), reach=tuple(labels), role=role))
+    return hs
+
+
+def c09_candidates(tier):
+    """(Layout, role) just-outside candidates; every one is rule-invalid"""
+    C = []
+
+    def add(W, fields, role, tag, **kw):
+        L = Layout(W, fields, tag=tag, **kw)
+        assert not L.rule_valid(), (tag, L.decl())
+        C.append((L, role))
+
+    nat = [8, 16, 32, 64] + ([128] if tier != "quick" else [])
+    arbs = [7, 9, 24, 33, 65, 100] if tier == "quick" else [n for n in ALL_ARB if n >= 3][::4] + [24, 127]
+    # 1. type width != selected bits
+    for W in (8, 32, 128, 24):
+        add(W, [Field("f", T_uint(5), [(0, 6)], None, "rw")], "type-width-mismatch", f"u5 over 6 bits on u{W}")
+        add(W, [Field("f", T_uint(5), [(1, 4)], None, "rw")], "type-width-mismatch", f"u5 over 4 bits on u{W}")
+        add(W, [Field("f", T_bool(), [(2, 2)], None, "rw")], "type-width-mismatch", f"bool over 2 bits on u{W}")
+        add(W, [Field("f", T_uint(4), [(0, 3)], (2, 4, True), "rw")], "type-width-mismatch", f"[u4;2] over 3-bit elements on u{W}")
+        add(W, [Field("f", T_uint(6), [(0, 2), (4, 3)], None, "rw")], "type-width-mismatch", f"u6 over a 5-bit list on u{W}")
+        add(W, [Field("f", T_bool(), [(0, 1), (3, 1)], None, "rw", form="list")], "type-width-mismatch", f"bool over a two-item list on u{W}")
+    for W in (16, 64, 24):
+        add(W, [Field("f", T_uint(8), [(0, 7)], None, "rw")], "type-width-mismatch", f"u8 over 7 bits on u{W}")
+        add(W, [Field("f", T_uint(8), [(2, 9)], None, "rw")], "type-width-mismatch", f"u8 over 9 bits on u{W}")
+        add(W, [Field("f", T_int(16), [(0, 8)], None, "rw")], "type-width-mismatch", f"i16 over 8 bits on u{W}")
+        add(W, [Field("f", T_uint(1), [(0, 2)], None, "rw")], "type-width-mismatch", f"u1 over 2 bits on u{W}")
+    # 2. a bit >= N, non-array
+    for W in nat:
+        add(W, [Field("f", T_bool(), [(W, 1)], None, "rw")], "non-array-field-beyond-base-width", f"bool at bit {W} of u{W}")
+        add(W, [Field("f", T_uint(4), [(W - 2, 4)], None, "rw")], "non-array-field-beyond-base-width", f"u4 straddling the top of u{W}")
+        add(W, [Field("f", T_uint(8), [(W - 4, 8)], None, "r")], "non-array-field-beyond-base-width", f"read-only u8 straddling the top of u{W}")
+        add(W, [Field("f", T_uint(3), [(W + 8, 3)], None, "rw")], "non-array-field-beyond-base-width", f"u3 entirely above u{W}")
+        add(W, [Field("f", T_uint(2), [(0, 1), (W, 1)], None, "rw")], "list-item-beyond-base-width", f"list with an item at bit {W} of u{W}")
+        add(W, [Field("f", T_int(8), [(W - 7, 8)], None, "rw")], "non-array-field-beyond-base-width", f"i8 one bit beyond u{W}")
+    if True:
+        add(32, [Field("f", T_bool(), [(40, 1)], None, "rw")], "non-array-field-beyond-base-width", "bool at bit 40 of u32 (property text example)")
+        add(32, [Field("f", T_uint(5), [(30, 5)], None, "rw")], "non-array-field-beyond-base-width", "u5 at 30..=34 of u32")
+        add(16, [Field("f", T_uint(8), [(10, 8)], None, "r")], "non-array-field-beyond-base-width", "u8 at 10..=17 of u16 read-only")
+        add(64, [Field("f", T_uint(64), [(1, 64)], None, "rw")], "non-array-field-beyond-base-width", "u64 at 1..=64 of u64")
+        add(128, [Field("f", T_bool(), [(128, 1)], None, "rw")], "non-array-field-beyond-base-width", "bool at bit 128 of u128")
+    for N in arbs:
+        st = storage_bits(N)
+        add(N, [Field("f", T_bool(), [(N, 1)], None, "rw")], "non-array-field-beyond-base-width", f"bool at bit {N} of u{N} (inside the u{st} storage)")
+        if N + 1 < st:
+            add(N, [Field("f", T_uint(2), [(N - 1, 2)], None, "rw")], "non-array-field-beyond-base-width", f"u2 straddling bit {N - 1}/{N} of u{N}")
+        if st - N >= 2:
+            add(N, [Field("f", ty_for_width(st - N, "u1"), [(N, st - N)], None, "rw")], "non-array-field-beyond-base-width", f"field filling the hidden storage bits {N}..={st - 1} of u{N}")
+        add(N, [Field("f", T_bool(), [(st, 1)], None, "rw")], "non-array-field-beyond-base-width", f"bool at bit {st} of u{N} (beyond the storage)")
+        add(N, [Field("f", T_uint(2), [(N, 1), (0, 1)], None, "rw")], "list-item-beyond-base-width", f"list with an item at bit {N} of u{N}")
+        if N >= 4:
+            # arrays whose last element pokes one bit beyond N but stays inside the storage
+            w = 2
+            K = 2
+            lo = N - (K - 1) * w - w + 1
+            if lo >= 0 and (K - 1) * w + lo + w <= st:
+                add(N, [Field("f", T_uint(w), [(lo, w)], (K, w, False), "rw")], "array-beyond-exposed-width", f"[u2;2] ending at bit {N} of u{N} (inside the storage)")
+            add(N, [Field("f", T_bool(), [(N - 1, 1)], (2, 1, False), "rw")], "array-beyond-exposed-width", f"[bool;2] at bits {N - 1},{N} of u{N}")
+    add(24, [Field("hi", T_uint(8), [(24, 8)], None, "rw")], "non-array-field-beyond-base-width", "u24 with a field at 24..=31 (property text example)")
+    # arrays beyond the storage width
+    for W in nat:
+        add(W, [Field("f", T_uint(4), [(0, 4)], (W // 4 + 1, 4, False), "rw")], "array-beyond-storage-width", f"[u4;{W // 4 + 1}] on u{W}")
+        add(W, [Field("f", T_bool(), [(1, 1)], (W, 1, False), "rw")], "array-beyond-storage-width", f"[bool;{W}] from bit 1 on u{W}")
+        add(W, [Field("f", T_uint(2), [(0, 2)], (2, W - 1, True), "rw")], "array-beyond-storage-width", f"[u2;2] stride {W - 1} on u{W}")
+        add(W, [Field("f", T_uint(2), [(0, 1), (2, 1)], (2, W - 2, True), "rw")], "array-beyond-storage-width", f"array of lists one bit beyond u{W}")
+    # 3. stride < width
+    for W in (8, 32, 128, 24):
+        add(W, [Field("f", T_uint(4), [(0, 4)], (2, 3, True), "rw")], "stride-less-than-width", f"[u4;2] stride 3 on u{W}")
+        add(W, [Field("f", T_uint(2), [(0, 2)], (3, 1, True), "rw")], "stride-less-than-width", f"[u2;3] stride 1 on u{W}")
+        add(W, [Field("f", T_uint(3), [(0, 3)], (2, 0, True), "rw")], "stride-less-than-width", f"[u3;2] stride 0 on u{W}")
+    add(64, [Field("f", T_int(8), [(0, 8)], (4, 7, True), "rw")], "stride-less-than-width", "[i8;4] stride 7 on u64")
+    # 4. lo > hi
+    for W in (8, 32, 64, 24):
+        L = Layout(W, [Field("f", T_uint(6), [(3, 0)], None, "rw", raw_attr="#[bits(6..=1, rw)]")], tag=f"reversed range 6..=1 typed u6 on u{W}")
+        C.append((L, "reversed-range"))
+        L = Layout(W, [Field("f", T_uint(2), [(3, 0)], None, "rw", raw_attr="#[bits(5..=4, rw)]")], tag=f"reversed range 5..=4 typed u2 on u{W}")
+        C.append((L, "reversed-range"))
+        L = Layout(W, [Field("f", T_bool(), [(3, 0)], None, "rw", raw_attr="#[bits(3..=2, rw)]")], tag=f"reversed range 3..=2 typed bool on u{W}")
+        C.append((L, "reversed-range"))
+    # reversed item inside a list whose remaining items make the total match (wraps in a release-built macro)
+    L = Layout(32, [Field("f", T_uint(8), [(0, 12)], None, "rw", raw_attr="#[bits([8..=3, 0..=11], rw)]")], tag="list [8..=3, 0..=11] typed u8 on u32")
+    L.fields[0].ranges = [(0, 12)]
+    C.append((L, "reversed-range-in-list"))
+    L = Layout(64, [Field("f", T_uint(16), [(0, 20)], None, "rw", raw_attr="#[bits([20..=17, 0..=19], rw)]")], tag="list [20..=17, 0..=19] typed u16 on u64")
+    L.fields[0].ranges = [(0, 20)]
+    C.append((L, "reversed-range-in-list"))
+    L = Layout(16, [Field("f", T_uint(4), [(0, 6)], None, "rw", raw_attr="#[bits([0..=5, 9..=8], rw)]")], tag="list [0..=5, 9..=8] typed u4 on u16")
+    L.fields[0].ranges = [(0, 6)]
+    C.append((L, "reversed-range-in-list"))
+    L = Layout(24, [Field("f", T_uint(8), [(0, 12)], None, "rw", raw_attr="#[bits([8..=3, 0..=11], rw)]")], tag="list [8..=3, 0..=11] typed u8 on u24")
+    L.fields[0].ranges = [(0, 12)]
+    C.append((L, "reversed-range-in-list"))
+    # 5. degenerate arrays
+    for W in (8, 32):
+        L = Layout(W, [Field("f", T_uint(4), [(0, 4)], (1, 4, False), "rw")], tag=f"[u4;1] on u{W}")
+        C.append((L, "array-of-one"))
+        L = Layout(W, [Field("f", T_uint(4), [(0, 4)], (0, 4, False), "rw")], tag=f"[u4;0] on u{W}")
+        L.fields[0].array = (0, 4, False)
+        C.append((L, "array-of-zero"))
+    # non-contiguous array without stride
+    for W in (16, 64):
+        L = Layout(W, [Field("f", T_uint(2), [(0, 1), (4, 1)], (2, 2, False), "rw")], tag=f"array of lists without stride on u{W}")
+        C.append((L, "list-array-without-stride"))
+    return C
+
+
+def c09_accept_corpus(tier, seed):
+    """rule-valid declarations that must compile: breadth corpus + the just-inside member of every
+    boundary pair + every k-th declaration of the other checks' quick corpora"""
+    Ls = []
+    for W in NATIVE_BASES + [7, 9, 24, 33, 65, 100, 127]:
+        # just inside
+        Ls.append(Layout(W, [Field("f", T_bool(), [(W - 1, 1)], None, "rw")], tag=f"bool at top bit of u{W}"))
+        if W >= 4:
+            Ls.append(Layout(W, [Field("f", T_uint(4), [(W - 4, 4)], None, "rw")], tag=f"u4 ending at top of u{W}"))
+            Ls.append(Layout(W, [Field("f", T_uint(2), [(W - 4, 2)], (2, 2, False), "rw")], tag=f"[u2;2] ending at top of u{W}"))
+            Ls.append(Layout(W, [Field("f", T_uint(2), [(0, 1), (W - 1, 1)], None, "rw")], tag=f"list touching the top of u{W}"))
+            Ls.append(Layout(W, [Field("f", T_uint(2), [(0, 1), (2, 1)], (2, W - 3, True), "rw")], tag=f"array of lists ending at top of u{W}"))
+        Ls.append(Layout(W, [Field("f", T_uint(W), [(0, W)], None, "rw")], tag=f"full-width field on u{W}"))
+        if W >= 8:
+            Ls.append(Layout(W, [Field("f", T_uint(4), [(0, 4)], (2, 4, True), "rw")], tag=f"stride == width on u{W}"))
+            Ls.append(Layout(W, [Field("f", T_uint(6), [(1, 6)], None, "r"), Field("g", T_int(8), [(W - 8, 8)], None, "w"), Field("n", T_bool(), [(0, 1)], None, "")], tag=f"access r / w / none on u{W}"))
+    k = 1 if tier != "quick" else 4
+    for fn in (c01_layouts, c02_layouts, c03_layouts, c04_layouts, c05_layouts, c06_layouts, c08_layouts, c12_layouts, c13_layouts, c16_layouts):
+        ls = fn("quick", 0)
+        Ls += ls[::k]
+    return Ls
+
+
+def plan_c09(tier, seed):
+    us = []
+    acc = c09_accept_corpus(tier, seed)
+    extra = [Unit(f"a{i:05d}", L.decl() + ("\n" + C06_PRE if False else ""), [], {"layout": L, "sig": L.sig(), "tag": L.tag, "valid": True, "role": "rule-valid-rejected"}) for i, L in enumerate(acc)]
+    cands = c09_candidates(tier)
+    for i, (L, role) in enumerate(cands):
+        hs = []
+        for f in L.fields:
+            if f.K == 0:
+                continue
+            hs += h_sound(L, f, role)
+        us.append(Unit(f"c{i:05d}", L.decl(), hs, {"layout": L, "sig": L.sig(), "tag": L.tag, "valid": False, "role": role}))
+    # negative controls live on a rule-valid layout (must be accepted): reference shifted / value flipped
+    Lc = Layout(32, [Field("f", T_uint(5), [(4, 5)], None, "rw"), Field("a", T_uint(4), [(16, 4)], (4, 4, False), "rw")], tag="control layout")
+    cu = Unit("k00000", Lc.decl(), [H.ctl_get(Lc, Lc.fields[0], "C09"), H.ctl_set(Lc, Lc.fields[0], "C09"), H.ctl_oob(Lc, Lc.fields[1], "C09", "get")] + h_sound(Lc, Lc.fields[0], "") + h_sound(Lc, Lc.fields[1], ""),
+              {"layout": Lc, "sig": Lc.sig(), "tag": Lc.tag, "valid": True})
+    us.append(cu)
+    return Plan(us, title="a declaration compiles iff it fits", macro_profiles=("dev", "release"), accept_is_obligation=True, extra_accept_units=extra, chunk=400,
+                bounds={"accept direction": "%d rule-valid declarations must compile (concrete run of the macro, both host profiles)" % len(extra),
+                        "reject direction": "%d just-outside candidates (type width != bits, a bit >= N on native and arbitrary-int bases for scalars/lists/arrays, stride < width, lo > hi, degenerate arrays): each is either rejected by the macro or its accepted expansion must satisfy the soundness spec S1..S5 for ALL inputs (solver)" % len(cands),
+                        "host profiles": "the macro is built dev-style and release-style ([profile.dev.build-override] overflow-checks=false, debug-assertions=false)",
+                        "outside": "purely syntactic rules with no run-time consequence (array of one element), wording/location of diagnostics"},
+                assumptions=COMMON_ASSUME + ["the rule oracle is written from the property text (model.Layout.rule_valid)", "the verdict accept/reject is a concrete run of the generator by rustc; what the solver decides is the semantics of every accepted expansion"],
+                rule="evaluation = one Kani harness of the soundness spec for an accepted candidate (or a negative control); acceptance obligations are counted separately under obligations; distinct = (declaration signature, harness family, field, macro host profile)")
+
+
+PLANS.update({"C09": plan_c09})
+
+
+# ------------------------------------------------------------------------------------------------
+# C14: builder offered exactly when sound
+C14_PRE = """pub struct VNoBuilder;
+pub trait VProbeBuilder { fn builder() -> VNoBuilder { VNoBuilder } }
+impl VProbeBuilder for S {}
+pub fn voffered<T: 'static>(_: &T) -> bool { core::any::TypeId::of::<T>() != core::any::TypeId::of::<VNoBuilder>() }"""
+
+
+def h_c14_probe(L, expected):
+    b = [f"let b = {L.name}::builder();", "let offered: bool = voffered(&b);"]
+    b.append('vcover!(offered, "VERIF-REACH-offered");')
+    if expected:
+        b.append('assert!(offered, "VERIF builder() is not offered although no bit is writable twice and the layout is complete or has a default");')
+    b.append("vend!();")
+    return Harness("probe", "\n".join(b), "pass", "builder_offered_probe", "C14", "", (f"{L.name}::builder",))
+
+
+def h_c14_sound(L, role):
+    b = []
+    chain, args = builder_chain(L, b)
+    b.append(f"let built: {L.name} = {chain};")
+    b.append(f"let braw: u128 = {H.raw_of(L, 'built')};")
+    for (f, vs) in args:
+        for j, v in enumerate(vs):
+            b.append(f'assert!(spec::get(braw, {H.rng(f.ranges)}, {j * f.stride}u32) == {H.val_bits(f.ty, v)}, "VERIF builder: field {f.name}{"[%d]" % j if f.array else ""} does not read back the argument supplied for it (a bit is writable twice)");')
+    reach = ()
+    if not L.default:
+        b.append(f'vcover!(braw == {mask(L.base):#x}u128, "VERIF-REACH-all-ones");')
+        reach = ("VERIF-REACH-all-ones",)
+    b.append("vend!();")
+    return Harness("sound", "\n".join(b), "pass", "builder_sound", "C14", "", (f"{L.name}::builder", "Partial*::with_*", "build"), reach=reach, role=role, note="requires:probe:VERIF-REACH-offered")
+
+
+def c14_candidates(tier, seed):
+    C = []
+
+    def add(W, fields, role, tag, default=None, aux=None):
+        C.append((Layout(W, fields, default=default, tag=tag, aux=aux or []), role))
+
+    D = lambda W: ("lit", (1 << (W - 1)) | 1, "hex")
+    for W in (8, 32, 128, 24, 65):
+        h = W // 2
+        # eligible ones
+        add(W, [Field("a", ty_for_width(h, "u1"), [(0, h)], None, "rw"), Field("b", ty_for_width(W - h, "u1"), [(h, W - h)], None, "rw")], "", f"complete two halves on u{W}")
+        add(W, [Field("a", T_uint(3), [(1, 3)], None, "rw")], "", f"partial with default on u{W}", default=D(W))
+        add(W, [Field("a", T_uint(3), [(1, 3)], None, "w"), Field("r0", T_uint(2), [(1, 2)], None, "r")], "", f"read-only field overlapping a writable one, with default on u{W}", default=D(W))
+        add(W, [Field("a", T_uint(2), [(0, 1), (2, 1)], (2, 1, True), "rw")], "", f"interleaving array of lists without collision, default on u{W}", default=D(W))
+        # not eligible: overlapping scalar fields
+        add(W, [Field("a", T_uint(4), [(0, 4)], None, "rw"), Field("b", T_uint(4), [(3, 4)], None, "rw")], "overlapping-scalar-fields", f"two writable fields share bit 3 on u{W}", default=D(W))
+        add(W, [Field("a", T_uint(W), [(0, W)], None, "rw"), Field("b", T_bool(), [(W - 1, 1)], None, "w")], "overlapping-scalar-fields", f"full-width field + top bit on u{W}")
+        # overlapping array elements cannot be declared with a single range (stride >= width); lists can collide
+        add(W, [Field("a", T_uint(2), [(0, 1), (2, 1)], (2, 2, True), "rw")], "colliding-array-of-lists", f"array of lists whose elements collide on bit 2, default on u{W}", default=D(W))
+        add(W, [Field("a", T_uint(3), [(0, 1), (1, 1), (2, 1)], (2, 1, True), "rw")], "colliding-array-of-lists", f"array of lists stride 1 overlapping, default on u{W}", default=D(W))
+        # self-overlapping list on a non-array field
+        add(W, [Field("a", T_uint(8), [(0, 4), (2, 4)], None, "rw")], "self-overlapping-list", f"list [0..=3, 2..=5] names bits twice, default on u{W}", default=D(W))
+        add(W, [Field("a", T_uint(2), [(5, 1), (5, 1)], None, "rw")], "self-overlapping-list", f"list [5, 5], default on u{W}", default=D(W))
+        if W in (8,):
+            add(W, [Field("a", T_uint(8), [(0, 4), (4, 2), (2, 2)], None, "rw"), Field("b", T_uint(2), [(6, 2)], None, "rw")], "self-overlapping-list", f"self-overlapping list that 'covers' u{W} only by counting bits twice, no default")
+        # array + scalar overlap
+        add(W, [Field("a", T_uint(2), [(0, 2)], (3, 2, False), "rw"), Field("b", T_bool(), [(5, 1)], None, "rw")], "overlapping-array-and-scalar", f"scalar inside the last array element on u{W}", default=D(W))
+        # incomplete cover without default
+        add(W, [Field("a", ty_for_width(W - 1, "u1"), [(0, W - 1)], None, "rw")], "incomplete-no-default", f"top bit uncovered, no default on u{W}")
+        add(W, [Field("a", ty_for_width(W - 1, "u1"), [(1, W - 1)], None, "rw"), Field("r0", T_bool(), [(0, 1)], None, "r")], "incomplete-no-default", f"bit 0 only readable, no default on u{W}")
+        add(W, [Field("a", T_uint(2), [(0, 2)], (W // 3, 3, True), "rw")], "incomplete-no-default", f"array with gap bits, no default on u{W}")
+    return C
+
+
+def plan_c14(tier, seed):
+    us = []
+    cands = c14_candidates(tier, seed)
+    # plus the builder-eligible random layouts of C13 (eligible => offered) and C12's overlapping ones (not eligible)
+    extra = [(L, "") for L in c13_layouts("quick", 0)[: (25 if tier == "quick" else 200)]]
+    extra += [(L, "overlapping-random-layout") for L in c12_layouts("quick", 0) if not L.builder_expected()][: (12 if tier == "quick" else 60)]
+    for i, (L, role) in enumerate(cands + extra):
+        if not L.rule_valid() or not any(f.writable for f in L.fields):
+            continue
+        exp = L.builder_expected()
+        hs = [h_c14_probe(L, exp), h_c14_sound(L, role or ("eligible" if exp else "not-eligible"))]
+        us.append(Unit(f"b{i:05d}", L.decl() + "\n" + C14_PRE, hs, {"layout": L, "sig": L.sig(), "tag": L.tag, "valid": True, "role": role, "expected": exp}))
+    # controls: probe expecting a builder on a layout that cannot have one; a sound-harness with a wrong read-back
+    Lc = Layout(8, [Field("a", T_uint(4), [(0, 4)], None, "rw"), Field("b", T_uint(4), [(4, 4)], None, "rw")], tag="control layout")
+    h1 = h_c14_sound(Lc, "")
+    h1.name, h1.expect, h1.family, h1.note = "ctl_sound", "control", "control", ""
+    h1.body = h1.body.replace("assert!(spec::get(braw, &[(0, 4)], 0u32)", "assert!(spec::get(braw, &[(1, 4)], 0u32)", 1)
+    Ln = Layout(8, [Field("a", T_uint(4), [(0, 4)], None, "rw")], tag="control layout (no builder)")
+    h2 = h_c14_probe(Ln, True)
+    h2.name, h2.expect, h2.family = "ctl_probe", "control", "control"
+    us.append(Unit("k00000", Lc.decl() + "\n" + C14_PRE, [h1, h_c14_probe(Lc, True)], {"layout": Lc, "sig": Lc.sig(), "tag": Lc.tag, "valid": True}))
+    us.append(Unit("k00001", Ln.decl() + "\n" + C14_PRE, [h2], {"layout": Ln, "sig": Ln.sig(), "tag": Ln.tag, "valid": True}))
+    return Plan(us, title="builder offered exactly when sound", macro_profiles=("dev", "release"), chunk=200, harness_timeout=600,
+                bounds={"layouts": "%d layouts: eligible (complete / default), overlapping scalar fields, colliding arrays of lists, self-overlapping lists, array/scalar overlap, incomplete cover without default, read-only gaps; + C13's eligible and C12's overlapping random layouts" % len(us),
+                        "decided": "offered => for ALL argument tuples every field reads back its argument, and without a default all-ones is buildable; eligible => offered (ground, by name resolution through an inherent-over-trait probe)",
+                        "outside": "that build() does not type-check on a proper prefix / subsequence of the chain (needs a program that must fail to compile)"},
+                assumptions=COMMON_ASSUME + ["eligibility oracle written from the property text (model.Layout.builder_expected)"])
+
+
+PLANS.update({"C14": plan_c14})
